@@ -195,6 +195,12 @@ fn pub_message(w: Option<&World>, path: &str, kind: &str) -> Result<publication:
             d.add_publish(Publish::new(None, uri(other, "intruder.cer"), content("intruder")));
             publication::Message::delta(d)
         }
+        "restore_own" => {
+            // undoes "update_own"
+            let mut d = PublishDelta::empty();
+            d.add_update(Update::new(None, uri(own, "new.cer"), content("new object"), content("replaced").to_hash()));
+            publication::Message::delta(d)
+        }
         "update_other" | "withdraw_other" | "update_own" => {
             // needs the current hash of the object x.cer the owner published
             let who = if kind == "update_own" { own } else { other };
